@@ -16,6 +16,10 @@ theorem generated_tempdir_shape :
      l.any (fun a => a.isCall "sortedStringMapKeys" && a.args == ["t.Params"]) &&
      l.any (fun a => a.isCall "sortedStringMapKeys" && a.args == ["t.Tags"]) &&
      count (·.isCall "splitAllPaths") l == 2 &&
+     -- the carrier IP of a joined port is skipped, before its path would be hashed
+     before l (fun a => a.kind == .ifB_ && a.name == "ok && ptInfo.join") (·.kind == .continue_) &&
+     before l (·.kind == .continue_) (fun a => a.isCall "splitAllPaths" && a.args == ["t.InIP(ipName).Path()"]) &&
+     l.any (fun a => a.kind == .assign_ && a.name == "ptInfo,ok" && a.args == ["t.portInfos[ipName]"]) &&
      l.any (fun a => a.isCall "append" && a.args == ["hashPcs", "paramName + \"_\" + t.Param(paramName)"]) &&
      l.any (fun a => a.isCall "append" && a.args == ["hashPcs", "tagName + \"_\" + t.Tag(tagName)"]) &&
      l.any (fun a => a.kind == .ifB_ && a.name == "len(pathPrefix) > (255 - 40 - 1)") &&
